@@ -3,7 +3,7 @@
 (* Which logged events are steps of the specification, per property.        *)
 (* e is one JSON event of the harness; P the property id.                   *)
 (***************************************************************************)
-EXTENDS Sem, SemConv, EuclidAlg
+EXTENDS Sem, SemConv, SemText, EuclidAlg, FmtAlg
 
 ArithExact(e) ==
   LET f == LF(e.L) IN
@@ -80,6 +80,26 @@ AcceptCodec(e) ==
      /\ e.wserde = e.serde
      /\ ValIs(e.serde_rt, a) /\ ValIs(e.serde_seq, a)
 
+(* ------------------------------ C08 ------------------------------------ *)
+AcceptParse(e, P) ==
+  LET t == Tok(e.s, e.rx)  L == e.L  o == e.o IN
+  IF ~t.ok
+  THEN IF P = "C18" THEN IsNone(e.w) ELSE \A i \in 1..4 : IsNone(o[i])
+  ELSE LET R == ParseR(t, e.rx, LF(L)) IN
+       IF P = "C18" THEN ValIs(e.w, Wrap(R, L))
+       ELSE /\ (IF Fits(R, L) THEN ValIs(o[1], R) ELSE IsNone(o[1]))
+            /\ ValIs(o[2], Sat(R, L))
+            /\ ValIs(o[3], Wrap(R, L))
+            /\ ValIs(o[4], Wrap(R, L)) /\ o[4][3] = (IF Fits(R, L) THEN 0 ELSE 1)
+
+(* ------------------------------ C09 ------------------------------------ *)
+AcceptFmt(e) ==
+  /\ e.base[1] = 0
+  /\ LET bi == BodyInfo(e.base[2], e.kind) IN
+     /\ BodyOk(bi, ZJ(e.a), LF(e.L), e.kind, e.p)
+     /\ \A i \in 1..Len(e.vs) : VariantOk(e.vs[i], bi, e.kind)
+     /\ ("back" \in DOMAIN e => ValIs(e.back, ZJ(e.a)))
+
 (* ------------------------------ C11 ------------------------------------ *)
 (* A pair event carries the same call recorded in the unchecked (u) and     *)
 (* checked (c) build profiles.  Every outcome slot must be identical, or    *)
@@ -113,6 +133,8 @@ AcceptPair(e) ==
 Accept(e, P) ==
   CASE e.k \in {"bin", "bini", "un"} -> AcceptArith(e, P)
     [] e.k = "pair"  -> AcceptPair(e)
+    [] e.k = "parse" -> AcceptParse(e, P)
+    [] e.k = "fmt"   -> AcceptFmt(e)
     [] e.k = "cmp"   -> AcceptCmp(e)
     [] e.k = "cmpf"  -> AcceptCmpF(e)
     [] e.k = "ord"   -> AcceptOrd(e)
